@@ -87,7 +87,24 @@ def check_case(case):
             return p
         cmp("segment_add", segadd)
         checked.append("segment_add")
-    if all(p[0][0] == "M" for p in ps[1:]):
+    parts = case.get("parts")
+    if parts and all(v for v, _ in parts):
+        # Path(a) + Path(b): both geometries unchanged - expected = each piece interpreted on its own
+        alone = []
+        for _, sg in parts:
+            alone += sg
+
+        def cmp2(name, build):
+            try:
+                p = build()
+            except Exception as e:
+                dis.append({"clause": name + ":Raises", "detail": "%s: %s (pieces %r)" % (type(e).__name__, e, ds)})
+                return
+            for x in compare_segs(svg, p, alone):
+                x["clause"] = name + ":" + x["clause"]
+                x["detail"] += " (pieces as separate Paths %r)" % (ds,)
+                dis.append(x)
+
         def pathadd():
             p = svg.Path(ds[0])
             for b in ds[1:]:
@@ -99,9 +116,16 @@ def check_case(case):
             for b in ds[1:]:
                 p += svg.Path(b)
             return p
-        cmp("path_add", pathadd)
-        cmp("path_iadd", pathiadd)
-        checked += ["path_add", "path_iadd"]
+        def subadd():
+            p = svg.Path(ds[0])
+            for b in ds[1:]:
+                q = svg.Path(b)
+                p += svg.Subpath(q, 0, len(q) - 1)
+            return p
+        cmp2("path_add", pathadd)
+        cmp2("path_iadd", pathiadd)
+        cmp2("path_iadd_subpath", subadd)
+        checked += ["path_add", "path_iadd", "path_iadd_subpath"]
     # operands are not modified by +
     try:
         a = svg.Path(ds[0])
@@ -165,7 +189,8 @@ def cases_from_dump(path):
     for st in engine.read_dump(path):
         h, cuts = st["hist"], st["cuts"]
         if cuts and cuts[-1] < len(h):
-            yield {"hist": h, "segs": st["segs"], "cuts": cuts}
+            yield {"hist": h, "segs": st["segs"], "cuts": cuts,
+                   "parts": st["parts"] + [[st["alone"][0], st["alone"][1][4]]]}
         elif not cuts and 1 <= len(h) <= 2:
             yield {"hist": h, "segs": st["segs"], "shape": True}
 
@@ -174,8 +199,8 @@ def run(tier, seed):
     run = engine.Run("C17", tier, seed)
     work = engine.workdir("C17")
     try:
-        consts = {"MaxCmds": 3, "NVar": 1} if tier == "quick" else {"MaxCmds": 4, "NVar": 1}
-        res = engine.run_tlc(work, "MC_C17", constants=consts, invariants=["Connected", "CloseReturns", "Reconstruct"],
+        consts = {"MaxCmds": 3, "NVar": 2} if tier == "quick" else {"MaxCmds": 4, "NVar": 1}
+        res = engine.run_tlc(work, "MC_C17", constants=consts, invariants=["Connected", "CloseReturns", "Reconstruct", "AbsMoveSame"],
                              cfg_extra=["PROPERTY SplitInvisible"], init="InitC")
         run.add_tlc(res, "PathInterp + Split, %s" % consts)
         n = 0
